@@ -180,6 +180,37 @@ def uniform_workers(ctx, P, crate, fam, rule):
     ctx.floor(rule, "%s: WorkerConfig fields" % fam, m, 3)
 
 
+def batch_complete(ctx, P, fam, wl, rule):
+    """The packets of one batch: a loop nested in the service loop that walks collected packets goes back to the service loop only when
+    its iterator is exhausted."""
+    from ..engine import cfg as C
+    S = T.Slicer(wl, P)
+    loops = C.loops(wl)
+    if not loops:
+        return
+    L = max(loops.items(), key=lambda kv: len(kv[1]))[1]
+    # leaving it early drops the Drain and with it every packet of the batch that was not looked at yet
+    early, m = [], 0
+    for hdr, Lin in loops.items():
+        if not (Lin < L) or not any(callee_of(t_).endswith("::next") and "Range<" not in callee_of(t_) for b_, t_ in wl.calls() if b_ in Lin):
+            continue
+        for x in sorted(Lin):
+            for y in wl.succs(x):
+                if y in Lin or y not in L or wl.blocks[y]["t"]["k"] == "unreachable":
+                    continue
+                m += 1
+                be = T.branch_edges(wl, S, x)
+                cs = list(Q.canon_cond(P, be[0], be[1][y], x)) if be is not None and y in be[1] else []
+                done = any(c[0] in ("variant", "variant_in") and T.has_call(c[1], "::next") and
+                           ((c[2] == "None" or (isinstance(c[2], tuple) and "None" in c[2] and "Some" not in c[2])) == c[3]) for c in cs)
+                if not done:
+                    early.append((x, [c[0] + ":" + (T.pp(c[1])[:50] if isinstance(c[1], tuple) else str(c[1])) for c in cs][-2:]))
+    if m:
+        ctx.check(not early, rule, fam + ":worker_loop:batch-complete", "%d ways from a batch loop back to the service loop, each when the batch is exhausted" % m,
+                  "the worker can leave the loop over a batch before its iterator is exhausted (%s): the remaining packets of the batch were "
+                  "reported Queued and are never analysed" % (early[:2],), ctx.loc(wl, early[0][0]) if early else None)
+
+
 def exit_conditions(ctx, P, fam, wl, wp, rule):
     """A worker only stops when it is told to (shutdown flag), when its queue is disconnected or when nobody listens to its results:
     no packet - in particular none the analyzer rejects with an error - can end the service loop."""
@@ -232,6 +263,7 @@ def exit_conditions(ctx, P, fam, wl, wp, rule):
               "the worker can leave its service loop for another reason (%s): packets dispatched to it afterwards are reported Queued and never analysed" % (bad[:2],),
               ctx.loc(wl, bad[0][0]) if bad else None)
     ctx.floor(rule, "%s: exits of the worker service loop" % fam, n, 3)
+    batch_complete(ctx, P, fam, wl, rule)
     # a process_packet that returns `keep running?`: false only when the result could not be delivered
     if wp is not None and wp.locals[0]["ty"] == "bool":
         SP = T.Slicer(wp, P)
